@@ -6,6 +6,7 @@ from .. import alphabet as A
 from .. import canon as C
 from .. import core
 from .. import framework as FW
+from .. import invariants as I
 from .. import refmodel as R
 from .. import spec as S
 
@@ -60,6 +61,10 @@ def check_state(spec, hist, reloaded, cont):
                 out.append(core.v_diff(PROP, drv, side + " differs from refill with scaled weights", d, rdoc, fa))
             if r is h:
                 out.append(FW.violation(PROP, drv, spec["t"] + ".__mul__", "returned-self", fa, {}))
+            vw = I.views(r)
+            if vw:
+                out.append(FW.violation(PROP, drv, "%s of the scaled result" % vw[1], "handle-on-child-not-scaled", fa,
+                                        {"path": vw[0], "message": vw[2]}))
         d = C.diff(h.toJson(), hdoc, tol_keys=())
         if d:
             out.append(core.v_diff(PROP, drv, "operand changed by scaling", d, h.toJson(), fa))
@@ -133,11 +138,69 @@ def check_state(spec, hist, reloaded, cont):
                                        rr.toJson(), fa))
             hash(r)
             hg.Factory.fromJson(r.toJson())
+            vw = I.views(r)
+            if vw:
+                out.append(FW.violation(PROP, "scale-continue", "%s of the scaled result after fills and merges" % vw[1],
+                                        "handle-on-child-not-updated", fa, {"path": vw[0], "message": vw[2]}))
         except Exception as e:
             out.append(core.v_exc(PROP, "scale-continue", "continuation on scaled object raised", e, fa))
     d = C.diff(h.toJson(), hdoc, tol_keys=())
     if d:
         out.append(core.v_diff(PROP, drv, "operand changed by continuation on scaled result", d, h.toJson(), args))
+    return out
+
+
+def check_built(spec, ha, hb):
+    """Containers assembled by Stack.build / Fraction.build from separately aggregated pieces scale like any other."""
+    import histogrammar as hg
+
+    args = {"spec": spec, "ha": core.show_evs(ha), "hb": core.show_evs(hb)}
+    out = []
+    try:
+        st = hg.Stack.build(core.mk(spec, ha), core.mk(spec, hb))
+        fr = hg.Fraction.build(core.mk(spec, ha), core.mk(spec, hb))
+        stdoc, frdoc = st.toJson(), fr.toJson()
+    except Exception as e:
+        return [core.v_exc(PROP, "scale-built", "Stack.build/Fraction.build raised", e, args)]
+    for f in FACTORS:
+        fa = dict(args, factor=A.show(float(f)) if isinstance(f, float) else f)
+        sa, sb = R.scale_events(ha, f), R.scale_events(hb, f)
+        try:
+            for side in ("s*f", "f*s"):
+                r = st * f if side == "s*f" else f * st
+                got = r.toJson()["data"]
+                exp = [{"atleast": "nan", "data": R.ref_doc(spec, sa + sb)["data"]},
+                       {"atleast": "nan", "data": R.ref_doc(spec, sb)["data"]}]
+                d = C.diff(got["bins"], exp, drop_names=True)
+                if d:
+                    out.append(core.v_diff(PROP, "scale-built", "scaled Stack.build result differs from the scaled pieces", d,
+                                           r.toJson(), fa))
+                    continue
+                hash(r)
+                back = hg.Factory.fromJson(r.toJson()).toJson()
+                d = C.diff(back, r.toJson(), tol_keys=())
+                if d:
+                    out.append(core.v_diff(PROP, "scale-built", "scaled Stack.build result does not round-trip", d, back, fa))
+                if not (f > 0):
+                    # the empty Stack of the same structure is neutral for + with the original
+                    for nm, m in (("z+s", r + st), ("s+z", st + r)):
+                        d = C.diff(m.toJson(), stdoc)
+                        if d:
+                            out.append(core.v_diff(PROP, "scale-built", "%s differs from s (z = s scaled by a non-positive "
+                                                   "factor)" % nm, d, m.toJson(), fa))
+                r = fr * f if side == "s*f" else f * fr
+                got = r.toJson()["data"]
+                d = C.diff([got["numerator"], got["denominator"]],
+                           [R.ref_doc(spec, sa)["data"], R.ref_doc(spec, sb)["data"]], drop_names=True)
+                if d:
+                    out.append(core.v_diff(PROP, "scale-built", "scaled Fraction.build result differs from the scaled pieces", d,
+                                           r.toJson(), fa))
+        except Exception as e:
+            out.append(core.v_exc(PROP, "scale-built", "scaling a Stack.build/Fraction.build result raised", e, fa))
+    for o, d0, nm in ((st, stdoc, "Stack.build"), (fr, frdoc, "Fraction.build")):
+        d = C.diff(o.toJson(), d0, tol_keys=())
+        if d:
+            out.append(core.v_diff(PROP, "scale-built", "%s result changed by scaling" % nm, d, o.toJson(), args))
     return out
 
 
@@ -186,6 +249,10 @@ def _tree(task):
             acc.add(check_distrib(spec, ha, hb))
             acc.n("distrib_pairs")
             acc.n("transitions", 10)
+        for ha, hb in itertools.product(small[:6], small[:6]):
+            acc.add(check_built(spec, ha, hb))
+            acc.n("built_pairs")
+            acc.n("transitions", 4 * len(FACTORS))
     if len(hists) > 1:
         acc.sample({"state": core.sample_hist(spec, hists[-1]), "factors": [A.show(float(f)) for f in FACTORS],
                     "then": "fill/+/+=/hash/copy/*0.5 on h*f"})
@@ -235,6 +302,8 @@ def run(tier, seed):
 
 def replay(driver, args):
     spec = args["spec"]
+    if driver == "scale-built":
+        return check_built(spec, core.unshow_evs(args["ha"]), core.unshow_evs(args["hb"]))
     if driver == "scale-distrib":
         return check_distrib(spec, core.unshow_evs(args["ha"]), core.unshow_evs(args["hb"]))
     return check_state(spec, core.unshow_evs(args["hist"]), args.get("reloaded", False), core.unshow_evs(args["cont"]))
